@@ -118,7 +118,7 @@ def pathctx_phase(out, tier):
         out.extra.setdefault('deviations_rejected', {})[dev] = r2.violated
 
 
-CAPTURE_INVS = ['PartsExact', 'NothingLostOrTwice', 'SuppressHides', 'TeeShows', 'RestoredLIFO', 'DisabledInert']
+CAPTURE_INVS = ['PartsExact', 'NothingLostOrTwice', 'SuppressHides', 'TeeShows', 'RestoredLIFO', 'DisabledInert', 'NeverSwallows']
 
 
 def capture_cfg(maxops, deviation=('Emit',)):
@@ -151,6 +151,7 @@ def _capture_one(raw):
                 return 'cap%d' % c
         return 'other'
     sys.stdout = base
+    swallowed = False
     try:
         for k, (op, exp) in enumerate(zip(ops, hist)):
             kind, arg = op
@@ -159,16 +160,24 @@ def _capture_one(raw):
             elif kind == 'enter':
                 caps[arg].__enter__()
             elif kind == 'exit':
-                caps[arg].__exit__(None, None, None)
+                swallowed = bool(caps[arg].__exit__(None, None, None))
+            elif kind == 'exitx':
+                # an exception on its way out of the `with` block (a real one, with its traceback)
+                try:
+                    raise ValueError('raised inside the with block')
+                except ValueError:
+                    et, ev, tb = sys.exc_info()
+                swallowed = bool(caps[arg].__exit__(et, ev, tb))
+                del tb
             elif kind == 'print':
                 print(arg)
             exp = dict(exp)
-            got = {'out': name(sys.stdout), 'base': txt(base.getvalue())}
+            got = {'out': name(sys.stdout), 'base': txt(base.getvalue()), 'sw': swallowed}
             for c in (1, 2):
                 o = caps.get(c)
                 got['t%d' % c] = [-1] if (o is None or o.text is None) else txt(o.text)
                 got['n%d' % c] = 0 if o is None else len(o.parts)
-            want = {'out': exp['out'], 'base': list(exp['base']), 't1': list(exp['t1']), 't2': list(exp['t2']), 'n1': exp['n1'], 'n2': exp['n2']}
+            want = {'out': exp['out'], 'base': list(exp['base']), 't1': list(exp['t1']), 't2': list(exp['t2']), 'n1': exp['n1'], 'n2': exp['n2'], 'sw': bool(exp['sw'])}
             if got != want:
                 bad.append(('state_after_step_%d_%s' % (k + 1, kind), want, got))
                 break
@@ -194,7 +203,7 @@ def capture_phase(out, tier):
     raws = sorted(set(common.iter_printed(res)))
     if not raws:
         raise common.MachineryError('Capture: TLC printed no behaviour')
-    limit = 20000 if tier == 'quick' else 200000
+    limit = 30000 if tier == 'quick' else 200000
     if len(raws) > limit:
         import random
         raws = random.Random(common.seed()).sample(raws, limit)
@@ -209,7 +218,7 @@ def capture_phase(out, tier):
                           {'suppress': info['suppress'], 'enabled': info['enabled'], 'operations': info['ops'], 'disagreements': info['bad']})
     out.extra['capture_behaviours_replayed'] = len(raws)
     common.cleanup_scratch()
-    for dev in ('NoPosition', 'TeeWhenSuppressed'):
+    for dev in ('NoPosition', 'TeeWhenSuppressed', 'SwallowWhenSuppressed'):
         r2 = common.run_tlc('Capture', capture_cfg(7, deviation=(dev,)), timeout=300)
         common.cleanup_scratch()
         if not r2.violated:
